@@ -11,6 +11,8 @@ RULES = {
               'as_polytope/as_function/new/view/to_owned (field-wise), convert_to per PolyRepr arm',
     'C16.R2': 'named constructors: identity, zeros, constant, unit, zero_idx, sum, subtraction, rotation, scaling, uniform_scaling, translation',
 }
+CONTROL_REV = '078b142'  # thorough tier: the rules must still report the defects found (and since fixed) on the original tree
+CONTROLS = [('C16.R2', 'AffFuncBase::translation')]
 FLOORS = {'C16.R1': 35, 'C16.R2': 12}
 EXPLANATION = ('Each kernel is single-path; its returned value is a polynomial in the operands, and polynomial identities over matrices of all sizes are decidable by '
                'normal-form comparison. Constructor forms (base matrix + point writes) are compared entry-wise with the documented meaning.')
